@@ -802,6 +802,82 @@ example :
     subst hn
     decide
 
+/-! ### merged postings of several values of one label name -/
+
+/-- If every listed value reads back its list, `postingsOfValues` returns the lists in order. -/
+theorem postingsOfValues_ok (crc : Crc) (r : Reader) (name : Bytes) (f : Nat → Bytes) (g : Nat → List Nat) :
+    ∀ (vs : List Nat), (∀ v ∈ vs, r.postings crc name (f v) = .ok (g v)) →
+      r.postingsOfValues crc name (vs.map f) = .ok (vs.map g) := by
+  intro vs
+  induction vs with
+  | nil => intro _; rfl
+  | cons v vs ih =>
+    intro h
+    simp only [List.map_cons, Reader.postingsOfValues]
+    rw [h v (by simp), ih (fun w hw => h w (by simp [hw]))]
+
+/-- **Merged reads on the written file** (extends `block_roundtrip_sem` to the reads that walk the
+    postings offset table of one label name): on the file written by the model of `index.Writer`,
+    for every label name in use
+    * `PostingsForLabelMatching(name, match)` is the merge of the lists of exactly the values of that
+      name accepted by `match` — every value, the largest one included —, each list being the series
+      carrying the pair;
+    * `PostingsForAllLabelValues(name)` is the merge over all its values;
+    * `Postings(name, values...)` for values in use is the merge of their lists. -/
+theorem block_merged_postings_sem (crc : Crc) (syms : List Bytes) (series : List Series) (h : BlockWF syms series)
+    (hsorted : syms.Pairwise (fun a b => bytesLt a b = true))
+    (hne : ∀ n ∈ namesOf series, strOf syms n ≠ [])
+    (hfile : (writeIndex crc syms series).bytes.length < 4294967296) :
+    ∃ r, openIndex crc (writeIndex crc syms series).bytes = .ok r ∧
+      (∀ n (pred : Bytes → Bool), n ∈ namesOf series →
+        r.postingsMatching crc (strOf syms n) pred =
+          .ok (mergeIds (((valuesOf series n).filter fun v => pred (strOf syms v)).map fun v =>
+            idsWith ((writeIndex crc syms series).ids.zip series) n v))) ∧
+      (∀ n, n ∈ namesOf series →
+        r.postingsAll crc (strOf syms n) =
+          .ok (mergeIds ((valuesOf series n).map fun v =>
+            idsWith ((writeIndex crc syms series).ids.zip series) n v))) ∧
+      (∀ n (vs : List Nat), n ∈ namesOf series → (∀ v ∈ vs, v ∈ valuesOf series n) →
+        r.postingsMulti crc (strOf syms n) (vs.map (strOf syms)) =
+          .ok (mergeIds (vs.map fun v => idsWith ((writeIndex crc syms series).ids.zip series) n v))) := by
+  obtain ⟨r, hr, _, _, _, hpost, hlv, _⟩ := block_roundtrip_sem crc syms series h hsorted hne hfile
+  have hmatch : ∀ n (pred : Bytes → Bool), n ∈ namesOf series →
+      r.postingsMatching crc (strOf syms n) pred =
+        .ok (mergeIds (((valuesOf series n).filter fun v => pred (strOf syms v)).map fun v =>
+          idsWith ((writeIndex crc syms series).ids.zip series) n v)) := by
+    intro n pred hn
+    unfold Reader.postingsMatching
+    rw [hlv n hn, List.filter_map]
+    rw [postingsOfValues_ok crc r (strOf syms n) (strOf syms)
+      (fun v => idsWith ((writeIndex crc syms series).ids.zip series) n v)]
+    · rfl
+    · intro v hv
+      exact hpost n v hn (List.mem_filter.mp hv).1
+  refine ⟨r, hr, hmatch, ?_, ?_⟩
+  · intro n hn
+    have := hmatch n (fun _ => true) hn
+    have hf : (valuesOf series n).filter (fun v => (fun _ : Bytes => true) (strOf syms v)) = valuesOf series n :=
+      List.filter_eq_self.mpr (fun _ _ => rfl)
+    rw [hf] at this
+    exact this
+  · intro n vs hn hvs
+    unfold Reader.postingsMulti
+    have hall : (vs.map (strOf syms)).filter (fun v => (r.labelValues (strOf syms n)).contains v) =
+        vs.map (strOf syms) := by
+      rw [List.filter_eq_self]
+      intro a ha
+      obtain ⟨v, hv, rfl⟩ := List.mem_map.mp ha
+      rw [hlv n hn, List.contains_iff_mem]
+      exact List.mem_map.mpr ⟨v, hvs v hv, rfl⟩
+    rw [hall, postingsOfValues_ok crc r (strOf syms n) (strOf syms)
+      (fun v => idsWith ((writeIndex crc syms series).ids.zip series) n v)]
+    intro v hv
+    exact hpost n v hn (hvs v hv)
+
+/-- `mergeIds` of the lists of a label name with three values over three series: one list, and the
+    sorted union of several (non-trivial instance of the right-hand sides above). -/
+example : mergeIds [[3, 7]] = [3, 7] ∧ mergeIds [[3, 7], [5], [7, 9]] = [3, 5, 7, 9] ∧ mergeIds [] = [] := by decide
+
 /-! ## Damage of sections and of the whole file -/
 
 /-- Any length-prefixed section (`BE32 len | content | crc32`: symbol table, postings list, postings
